@@ -119,6 +119,86 @@ def expReleased (recs : List ((Addr × Suffix) × Record)) (to : Addr) (froms : 
   | (k, r) :: rest =>
     (if k.1 = to ∧ completes froms r then Coins.amountOf r.coins d else 0) + expReleased rest to froms d
 
+/-! ### what the HISTORY of successful messages says
+
+The store's own bookkeeping (the accepted / unaccepted lists of a record, the auto-response
+entries, the opt-in flags) is the thing under test, so the two clauses "a record is paid only
+when EVERY sender on it is currently accepted" and "funds arrive directly only from senders
+whose auto-response is accept at that time" are judged against what the receiver has actually
+said so far: `Hist` is rebuilt from the successful messages alone (plus WHICH record keys exist,
+never the lists stored in them). -/
+
+structure Hist where
+  /-- receivers that opted in and have not opted out since -/
+  optin : List (Addr × Unit)
+  /-- auto-responses as set by `UpdateAutoResponses`, permanent accepts and permanent declines -/
+  auto : List ((Addr × Addr) × AutoResp)
+  /-- per stored record: the senders the receiver has accepted (or had on auto-accept when the
+  record was created) and not declined since -/
+  acc : List ((Addr × Suffix) × List Addr)
+
+def Hist.empty : Hist := ⟨[], [], []⟩
+
+/-- `UpdateAutoResponses` read as a specification: later updates win, `unspec` removes. -/
+def applyUps (auto : List ((Addr × Addr) × AutoResp)) (to : Addr) :
+    List (Addr × AutoResp) → List ((Addr × Addr) × AutoResp)
+  | [] => auto
+  | (f, r) :: rest => applyUps (if r = .unspec then kvDel auto (to, f) else kvSet auto (to, f) r) to rest
+
+/-- the auto-response of `to` for `f` according to the history (an address always accepts itself) -/
+def Hist.autoResp (h : Hist) (to f : Addr) : AutoResp :=
+  if to = f then .accept else (kvGet h.auto (to, f)).getD .unspec
+
+/-- the senders of record `k` accepted so far according to the history -/
+def Hist.accepted (h : Hist) (k : Addr × Suffix) : List Addr := (kvGet h.acc k).getD []
+
+def Hist.stepOptin (h : Hist) : Op → List (Addr × Unit)
+  | .optIn a => kvSet h.optin a ()
+  | .optOut a => kvDel h.optin a
+  | _ => h.optin
+
+/-- only three messages change auto-responses; a one-time accept or decline does not -/
+def Hist.stepAuto (h : Hist) : Op → List ((Addr × Addr) × AutoResp)
+  | .auto to ups => applyUps h.auto to ups
+  | .accept to froms true => applyUps h.auto to (froms.map fun f => (f, AutoResp.accept))
+  | .decline to froms true => applyUps h.auto to (froms.map fun f => (f, AutoResp.decline))
+  | _ => h.auto
+
+/-- an accept marks the named senders accepted on every record of the receiver they are on;
+a decline takes every named sender's acceptance back; nothing else touches an acceptance -/
+def Hist.stepAccExisting (h : Hist) : Op → List ((Addr × Suffix) × List Addr)
+  | .accept to froms _ => h.acc.map fun e =>
+      (e.1, if e.1.1 = to then e.2 ++ e.1.2.filter (fun a => froms.contains a) else e.2)
+  | .decline to froms _ => h.acc.map fun e =>
+      (e.1, if e.1.1 = to then e.2.filter (fun a => !froms.contains a) else e.2)
+  | _ => h.acc
+
+/-- the accepted senders of record `k` after a successful `op`: a record that is new starts with
+the senders that are on auto-accept at that moment -/
+def Hist.accAfter (h : Hist) (op : Op) (k : Addr × Suffix) : List Addr :=
+  match kvGet (h.stepAccExisting op) k with
+  | some a => a
+  | none => k.2.filter fun f => h.autoResp k.1 f = AutoResp.accept
+
+/-- The history after a successful `op` that left the record keys `keysAfter` in the store
+(a record that is gone is forgotten). -/
+def Hist.step (h : Hist) (op : Op) (keysAfter : List (Addr × Suffix)) : Hist :=
+  { optin := h.stepOptin op,
+    auto := h.stepAuto op,
+    acc := keysAfter.map fun k => (k, h.accAfter op k) }
+
+/-- start of a history (and after a genesis import, which is outside the property): take the
+store's word once -/
+def Hist.ofState (s : State) : Hist := ⟨s.optin, s.auto, s.recs.map fun e => (e.1, e.2.acc)⟩
+
+/-- The state as the history says it has to be read: balances, record keys and coins are the
+store's, opt-ins / auto-responses / who is accepted on which record are the history's. -/
+def Hist.view (h : Hist) (p : State) : State :=
+  { p with optin := h.optin, auto := h.auto,
+           recs := p.recs.map fun e =>
+             (e.1, { e.2 with unacc := e.1.2.filter (fun a => !(h.accepted e.1).contains a),
+                              acc := e.1.2.filter (fun a => (h.accepted e.1).contains a) }) }
+
 /-! ### Bool forms, run on the implementation's dumped state -/
 
 def denomsOf (s : State) : List Denom :=
